@@ -457,7 +457,17 @@ func (e *Engine) explore(start *State, baseDepth int) (done []*State) {
 				break
 			}
 			first = false
+			var dbgWhere string
+			if os.Getenv("VERIF_FORKS") != "" && len(st.frames) > 0 {
+				fr := st.top()
+				if fr.ip < len(fr.block.Instrs) {
+					dbgWhere = fmt.Sprintf("%s b%d %s", fr.fn.Name(), fr.block.Index, fr.block.Instrs[fr.ip])
+				}
+			}
 			forks := e.stepSafe(st)
+			if dbgWhere != "" && len(forks) > 0 {
+				fmt.Fprintf(os.Stderr, "FORK %d at %s\n", len(forks), dbgWhere)
+			}
 			if len(forks) > 0 {
 				work = append(work, forks...)
 				if len(st.frames) == baseDepth+1 && !st.dead {
@@ -496,7 +506,8 @@ func mergeCandidate(work []*State, st *State) bool {
 func (e *Engine) stepSafe(st *State) (forks []*State) {
 	defer func() {
 		if r := recover(); r != nil {
-			if u, ok := r.(Unsupported); ok {
+			u, isUnsup := r.(Unsupported)
+			if isUnsup && os.Getenv("VERIF_TRACE") != "2" {
 				e.fail(st, "unsupported", u.Msg)
 				forks = nil
 				return
@@ -516,6 +527,11 @@ func (e *Engine) stepSafe(st *State) (forks []*State) {
 						}
 					}
 				}
+			}
+			if isUnsup {
+				e.fail(st, "unsupported", u.Msg)
+				forks = nil
+				return
 			}
 			panic(r)
 		}
